@@ -117,6 +117,10 @@ def equivalent(ctx, exp, got, atoms=None):
     atoms = atoms or Atoms(ctx)
     fe, fg = formula(exp, atoms), formula(got, atoms)
     s = z3.Solver()
+    # results the abstract Skia returned EMPTY on this path (explorer fork, opt skia_may_return_empty):
+    # the path is about inputs for which those regions contain no point
+    for nt in FP._registry().get("empty_results", []):
+        s.add(z3.Not(formula(nt, atoms)))
     s.add(fe != fg)
     r = s.check()
     ctx.queries += 1
